@@ -19,6 +19,7 @@ git -C $wt diff -- . ':!seed_demo' > $out/patch.diff
 [ -s $out/patch.diff ] || cp $wt/seed_demo/patch.diff $out/patch.diff
 rm -rf $out/demo; mkdir -p $out/demo; (cd $wt/seed_demo && find . -maxdepth 1 -type f -size -200k -exec cp {} $out/demo/ \;)
 log=$out/confirm.log; : > $log
+if ! diff -q <(grep -v '^index ' $out/patch.diff) <(grep -v '^index ' $wt/seed_demo/patch.diff) > /dev/null 2>&1; then echo "NOTE: worktree diff differs from the agent's seed_demo/patch.diff (using the agent's file)" | tee -a $log; cp $wt/seed_demo/patch.diff $out/patch.diff; (cd $wt && git checkout -q -- . && git apply $out/patch.diff); fi
 echo "seed $id property $prop base $(git -C /repo log --format=%h -1)" | tee -a $log
 # 1. baseline tests with the change (agent's worktree)
 ( cd $wt && cmake --build _build -j16 > /dev/null 2>&1; tot=0; bad=0
@@ -27,7 +28,8 @@ echo "seed $id property $prop base $(git -C /repo log --format=%h -1)" | tee -a 
   done; echo "tests with change: $tot passed, failures=$bad" ) | tee -a $log
 # 2. demonstration with / without
 ( cd $wt && bash seed_demo/run.sh > $out/demo_with.log 2>&1; echo "demo with change rc=$?" ) | tee -a $log
-( cd $wt && git stash -q; cmake --build _build -j16 > /dev/null 2>&1; bash seed_demo/run.sh > $out/demo_without.log 2>&1; echo "demo without change rc=$?"; git stash pop -q; cmake --build _build -j16 > /dev/null 2>&1 ) | tee -a $log
+# (no `git stash`: the stash is shared by all worktrees of /repo)
+( cd $wt && git apply -R $out/patch.diff && cmake --build _build -j16 > /dev/null 2>&1; bash seed_demo/run.sh > $out/demo_without.log 2>&1; echo "demo without change rc=$?"; git apply $out/patch.diff; cmake --build _build -j16 > /dev/null 2>&1 ) | tee -a $log
 # 3. checks against an isolated patched copy
 if [ ! -d $vc/repo ]; then git -C /repo worktree add -q --detach $vc/repo HEAD; fi
 git -C $vc/repo checkout -q --detach $(git -C /repo rev-parse HEAD) 2>/dev/null; git -C $vc/repo checkout -q -- . ; git -C $vc/repo clean -qfd -e _build
